@@ -227,8 +227,84 @@ def _execute(ctx_work, preps, evaluate):
             preps[i]["gen"][job["lang"]]["run"] = r["res"][str(i)]
 
 
+REBIND_SRC = '''
+def saturation(s, km):
+    return s / (km + s)
+
+
+def saturation_alt(s, km):
+    return s * s / (km + s * s)
+
+
+def uptake(s, vmax, km):
+    return vmax * saturation(s, km)
+
+
+def drain(s, k):
+    return k * s
+'''
+
+
+def check_rebind(case):
+    """History: generate code, rebind a helper the rate function calls, generate again (same process)."""
+    import importlib
+    import os
+    import sys
+
+    from mxlpy import Model
+    from mxlpy.meta import generate_model_code_py, generate_model_code_rs, generate_model_code_ts
+
+    from mc.core import WORK_DIR, sha12
+
+    d = WORK_DIR / "C07" / f"rebind_{os.getpid()}"
+    d.mkdir(parents=True, exist_ok=True)
+    name = f"mc_c07_rebind_{sha12([case, os.getpid()])}"
+    (d / f"{name}.py").write_text(REBIND_SRC)
+    if str(d) not in sys.path:
+        sys.path.insert(0, str(d))
+    importlib.invalidate_caches()
+    mod = importlib.import_module(name)
+
+    def model():
+        m = Model()
+        m.add_variables({"s": 1.0, "p": 0.5}).add_parameters({"vmax": 2.0, "km": 0.5, "k": 0.75})
+        m.add_reaction("v1", mod.uptake, args=["s", "vmax", "km"], stoichiometry={"s": -1, "p": 1})
+        m.add_reaction("v2", mod.drain, args=["p", "k"], stoichiometry={"p": -1})
+        return m
+
+    gens = {"py": generate_model_code_py, "ts": generate_model_code_ts, "rs": generate_model_code_rs}
+    calls = [[0.0, [0.5, 2.0], []], [1.5, [2.0, 0.25], []], [0.0, [3.0, 1.0], []]]
+    for i, st in enumerate(case["steps"]):
+        if st == "rebind":
+            mod.saturation = mod.saturation_alt
+            continue
+        m = model()
+        expected = [[float(v) for v in m.get_right_hand_side({"s": y[0], "p": y[1]}, t)] for t, y, _f in calls]
+        lang = case["lang"]
+        try:
+            code = gens[lang](model())
+        except Exception as exc:  # noqa: BLE001
+            return outcome(False, "generation-raised", symptom=f"generation-raised:{lang}:{type(exc).__name__}", nontrivial=True,
+                           detail=f"after steps {case['steps'][: i + 1]}: {type(exc).__name__}: {exc}")
+        if lang == "py":
+            run = runners.run_python(code, calls)
+        elif lang == "ts":
+            run = runners.run_js_batch([(0, code, calls)], str(d))[0]
+        else:
+            run = runners.run_rust_batch([(0, code, calls)], str(d))[0]
+        if not run["ok"]:
+            return outcome(False, "ill-formed", symptom=f"ill-formed:{lang}:{run['stage']}", nontrivial=True, detail=run["error"][:300])
+        for row, exp in zip(run["results"], expected, strict=True):
+            if len(row) != len(exp) or any(not _close(a, b) for a, b in zip(row, exp, strict=True)):
+                return outcome(False, "wrong-value", symptom=f"wrong-value:{lang}:helper-rebound", nontrivial=True,
+                               detail=f"after steps {case['steps'][: i + 1]}: generated {lang} gives {row}, the model {exp}\n{code[:700]}")
+    return outcome(True, "equal", nontrivial=True)
+
+
 def check(case):
     """Replay path / single case: case = shape + 'lang'."""
+    if case.get("family") == "rebind":
+        return check_rebind(case)
     from mc.core import WORK_DIR
 
     shape = {k: v for k, v in case.items() if k != "lang"}
@@ -243,11 +319,11 @@ def check(case):
 
 
 def _jl(case):
-    return case["lang"] == "jl" and not case["untr"]
+    return case.get("family") != "rebind" and case["lang"] == "jl" and not case["untr"]
 
 
 def _ia_free(case):
-    return bool(case["ia"]) and bool(case["free"]) and not case["untr"]
+    return case.get("family") != "rebind" and bool(case["ia"]) and bool(case["free"]) and not case["untr"]
 
 
 PREDICATES = {
@@ -267,4 +343,8 @@ def run(ctx):
             if "run" in prep["gen"][lang]:
                 executed[lang] += 1
             ctx.record({**shape, "lang": lang}, verdict(shape, lang, prep))
-    ctx.coverage_extra.update({"programs_executed": executed, "shapes": len(shapes), "languages": LANGS})
+    # histories: generation before and after a helper function of the rate law was re-bound in its module
+    hist = [{"family": "rebind", "lang": lang, "steps": steps} for lang in ("py", "ts", "rs")
+            for steps in (["generate", "rebind", "generate"], ["rebind", "generate"], ["generate", "generate", "rebind", "generate"])]
+    ctx.evaluate(hist, check=check_rebind, timeout=300)
+    ctx.coverage_extra.update({"programs_executed": executed, "shapes": len(shapes), "languages": LANGS, "rebind_histories": len(hist)})
